@@ -125,7 +125,13 @@ def run(spec, tier, seed, replay=None):
                                                  "searched": "harness oracle comparison over %d evaluations found no input on which the implementation violates the property" % evaluations})
         lines.append("VIOLATION property=%s replay=%s no-failing-input-found" % (pid, path))
         exit_code = 1
-    discharged = n_obl if not any(b["kind"] in ("proof", "axiom", "audit") for b in broken_obl) else 0
+    if not any(b["kind"] in ("proof", "axiom", "audit") for b in broken_obl):
+        discharged = n_obl
+    else:
+        # count only the statements of files whose .vo is present and up to date
+        built = [f for f in vfiles + [f for f in deps if "/tie/" in f]
+                 if os.path.exists(f + "o") and os.path.getmtime(f + "o") >= os.path.getmtime(f)]
+        discharged = V.count_obligations(built)[0] if not any(b["kind"] in ("axiom", "audit") for b in broken_obl) else 0
     trusted = list(V.TRUSTED_BASE_COMMON) + spec.get("trusted_base", [])
     if axioms_seen:
         trusted.append("std-library axioms reported by Print Assumptions: " + ", ".join(sorted(axioms_seen)))
